@@ -38,7 +38,10 @@ class LagrangeInit(Contract):
         f = env["self"].fields.get("factor")
         if f is None:
             return [Cl("sets-factor", False, prop=True)]
-        return [Cl("normalisation-factor-is-the-reciprocal-of-the-node-polynomial", Vv.to_z3(f, True) * prod == 1, prop=True)]
+        fl = env["self"].fields
+        stored = fl.get("p") == old["p"] and fl.get("index") == old["index"] and fl.get("knots") is env["knots"]
+        return [Cl("normalisation-factor-is-the-reciprocal-of-the-node-polynomial", Vv.to_z3(f, True) * prod == 1, prop=True),
+                Cl("degree-index-and-knots-stored", bool(stored))]
 
 
 class LagrangeCall(Contract):
